@@ -553,6 +553,9 @@ def a5(prog, ctx):
             ctx.ok("A5", "key_file_append grows by one entry", re_[0].where, "realloc(%s)" % size)
         else:
             ctx.fail("A5", "key_file_append grows by one entry", re_[0].where, "size %s without incrementing alloc_length" % size, key="append-size")
+    elif "sizeof(struct file_entry)" in size and re.search(r"->length\b", size) and any(k2 == "++" and render(l2).endswith("->length") for l2, r2, st2, k2 in query.stores(k)):
+        # sized by the number of entries in use (already counted up): equal to the capacity plus one exactly when the array was full - not followed
+        ctx.inconclusive("A5", "key_file_append grows by one entry", re_[0].where, "size %s: the count of entries instead of the capacity" % size)
     else:
         ctx.fail("A5", "key_file_append grows by one entry", re_[0].where, "size %s" % size, key="append-size")
     # new_key: append, then group and key go into the last entry
